@@ -194,6 +194,28 @@ fn check_side<T: FrequentItemValue + Hash + Eq + Clone + std::fmt::Debug>(
         let t = s.truth.get(&id).copied().unwrap_or(0);
         ensure!(t > err, "C07.false_positive", "{ctx}: NoFalsePositives returned {:?} with true count {t} <= threshold {err}", r.item());
     }
+    // custom thresholds (documented: max(threshold, maximum_error) applies; NoFalsePositives lists lower_bound >
+    // threshold, NoFalseNegatives upper_bound > threshold)
+    {
+        let mut ts: Vec<u64> = s.truth.values().copied().collect();
+        ts.sort_unstable();
+        let median = ts.get(ts.len() / 2).copied().unwrap_or(0);
+        for t in [0u64, err / 2, err, err.saturating_mul(2).saturating_add(1), median, ts.last().copied().unwrap_or(0)] {
+            let eff = t.max(err);
+            let fp = sk.frequent_items_with_threshold(ErrorType::NoFalsePositives, t);
+            for r in &fp {
+                let id = *inv.get(r.item()).ok_or_else(|| Fail { clause: "C07.rows.unknown_item".into(), detail: format!("{ctx}: threshold {t}: row with item {:?} never offered", r.item()) })?;
+                let tr = s.truth.get(&id).copied().unwrap_or(0);
+                ensure!(tr > eff, "C07.threshold.false_positive", "{ctx}: frequent_items_with_threshold(NoFalsePositives, {t}) returned {:?} with true count {tr} <= {eff}", r.item());
+            }
+            let fnn: BTreeSet<u64> = sk.frequent_items_with_threshold(ErrorType::NoFalseNegatives, t).iter().filter_map(|r| inv.get(r.item()).copied()).collect();
+            for (&id, &tr) in &s.truth {
+                if tr > eff {
+                    ensure!(fnn.contains(&id), "C07.threshold.false_negative", "{ctx}: item {:?} has true count {tr} > {eff} but frequent_items_with_threshold(NoFalseNegatives, {t}) omits it", conv(id));
+                }
+            }
+        }
+    }
     let listed: BTreeSet<u64> = nfn.iter().map(|r| inv[r.item()]).collect();
     for (&id, &t) in &s.truth {
         if t > err {
